@@ -98,7 +98,7 @@ def run_mapping(cfg):
 # ---------------------------------------------------------------------------
 
 def run_precompute(h5ad_paths, taxonomy_dict, output_path, tmp_dir, rows_at_a_time=7,
-                   n_processors=3, normalization='raw'):
+                   n_processors=3, normalization='raw', copy_data_over=False):
     """statistics from one or several h5ad files and a taxonomy whose leaves list cell names"""
     from cell_type_mapper.taxonomy.taxonomy_tree import TaxonomyTree
     from cell_type_mapper.diff_exp import precompute_from_anndata as pfa
@@ -110,7 +110,8 @@ def run_precompute(h5ad_paths, taxonomy_dict, output_path, tmp_dir, rows_at_a_ti
         rows_at_a_time=rows_at_a_time,
         normalization=normalization,
         tmp_dir=str(tmp_dir),
-        n_processors=n_processors)
+        n_processors=n_processors,
+        copy_data_over=copy_data_over)
 
 
 def run_precompute_columns(h5ad_path, column_hierarchy, output_path, tmp_dir, rows_at_a_time=7,
